@@ -13,6 +13,8 @@ mod engine;
 mod client;
 #[cfg(feature = "threaded-websockets")]
 mod ws;
+#[cfg(feature = "tokio-websockets")]
+mod wsa;
 
 use std::panic::{catch_unwind, AssertUnwindSafe};
 
@@ -123,7 +125,12 @@ impl Session {
             v if v.starts_with("cli.") => self.client.dispatch(v, head, payload),
             #[cfg(feature = "threaded-websockets")]
             "ws.read" => ws::cmd_ws_read(head),
+            #[cfg(feature = "threaded-websockets")]
             "ws.write" => ws::cmd_ws_write(head),
+            #[cfg(feature = "tokio-websockets")]
+            "ws.aread" => wsa::cmd_ws_aread(head),
+            #[cfg(feature = "tokio-websockets")]
+            "cfg.wsrequest" => wsa::cmd_cfg_wsrequest(head),
             _ => Err(format!("unknown verb {}", verb)),
         }
     }
